@@ -311,6 +311,8 @@ def cases(tier, seed):
     k = 300 if tier == "quick" else 3000
     for i in range(k):
         yield {"id": n + m + i, "fam": "alias", "seed": base + i}
+    for i in range(k):
+        yield {"id": n + m + k + i, "fam": "flowname", "seed": base + i}
 
 
 # ---------------------------------------------------------------- worker side
@@ -614,7 +616,52 @@ def run_instance(case):
     return dict(res, verdict="held")
 
 
+def run_flowname(case):
+    """flow events matched through the flow NAME - `match (helper).Finished()`, `match helper(a=1).Finished()` - succeed for any
+    instance of that flow whose parameters agree with the ones the pattern spells; parameters it does not mention are not compared"""
+    from . import v2h
+
+    L = v2h.load()
+    rng = random.Random(case["seed"])
+    np_ = rng.randint(0, 3)
+    names = ["a", "b", "c"][:np_]
+    defaults = {nm: rng.choice([7, "dflt"]) for nm in names[rng.randint(0, np_):]}
+    vals = {nm: rng.choice([1, 2, "x"]) for nm in names}
+    given = [nm for nm in names if nm not in defaults or rng.random() < 0.5]
+    given = names[: max([names.index(g_) + 1 for g_ in given] or [0])]  # positional call: a prefix of the parameters
+    actual = {nm: (vals[nm] if nm in given else defaults.get(nm)) for nm in names}
+    mention = [nm for nm in names if rng.random() < 0.5]
+    pattern = {nm: (actual[nm] if rng.random() < 0.65 else rng.choice([1, 2, "x", "other"])) for nm in mention}
+    member = rng.choice(["Finished", "Finished", "Started"])
+    sig = " ".join("$%s%s" % (nm, "=" + render_value(defaults[nm]) if nm in defaults else "") for nm in names)
+    call = " ".join(render_value(vals[nm]) for nm in given)
+    pat = "helper(%s).%s()" % (", ".join("%s=%s" % (k_, render_value(v_)) for k_, v_ in pattern.items()), member) if pattern else rng.choice(["helper.%s()" % member, "(helper).%s()" % member])
+    src = ("flow main\n  start watcher\n  match Go()\n  start helper %s\n  match Never()\n\nflow watcher\n  match %s\n  send Done()\n  match NeverW()\n\n"
+           "flow helper %s\n  match Fin()\n" % (call, pat, sig))
+    exp = all(type(actual[k_]) is type(v_) and actual[k_] == v_ for k_, v_ in pattern.items())
+    base = {"key": src, "nontrivial": bool(names), "scenario": "flowname", "sample": {"program": src, "pattern": pat, "actual_parameters": actual, "spec_matches": exp}}
+    obs = {"flowname_cases": 1, "flowname_spec_match": int(exp), "flowname_pattern_mentions_subset": int(0 < len(pattern) < len(names)), "flowname_no_arguments": int(not pattern and bool(names))}
+    L["random"].reset(seed=case["seed"])
+    _C["evals"] = 0
+    _C["viol"] = []
+    try:
+        st = v2h.mk(src)
+        out = v2h.types(v2h.run(st, {"type": "Go"}))
+        if member == "Finished":
+            out += v2h.types(v2h.run(st, {"type": "Fin"}))
+    except v2h.LoaderReject as e:
+        return dict(base, verdict="inconclusive", reason="loader-reject", detail=str(e)[:200], nontrivial=False)
+    except Exception as e:
+        return dict(base, verdict="violated", observed=obs, what="exception", witness={"program": src, "exception": "%s: %s" % (type(e).__name__, str(e)[:200])})
+    got = "Done" in out
+    if got != exp:
+        return dict(base, verdict="violated", observed=obs, what="flow-name-match-disagrees-with-spec", witness={"program": src, "pattern": pat, "actual_parameters": actual, "spec_matches": exp, "marker_emitted": got})
+    return dict(base, verdict="held", observed=obs)
+
+
 def run_case(case):
+    if case["fam"] == "flowname":
+        return run_flowname(case)
     if case["fam"] == "pair":
         return run_pair(case)
     if case["fam"] == "alias":
@@ -623,6 +670,8 @@ def run_case(case):
 
 
 def classify(r):
+    if r.get("scenario") == "flowname":
+        return "flow-name-match:" + str(r.get("what"))
     if r.get("scenario") == "alias":
         return "pattern-literal-aliased-with-a-mutated-value"
     if r.get("scenario"):
